@@ -157,6 +157,35 @@ def oracle_C01(case: dict, real: dict, model: dict) -> List[str]:
             out.append(f"{m}: raised {o['raised']}")
             continue
         out.append(f"{m}: returned neither Valid nor Invalid: {o}")
+    out += cached_total(case, env, real)
+    return out
+
+
+def cached_total(case: dict, env: List[dict], real: dict) -> List[str]:
+    """the same validator behind a cache wrapper (a composition like any other): a miss, then a hit, on each entry
+    point, must each return a Valid / Invalid as well"""
+    from .cache_stream import DictCache
+    out = []
+    for m in MODES:
+        try:
+            ctx = wire.Ctx()
+            rv = build.build(ctx, case["v"], env)
+            rx = wire.mk_value(ctx, real[m].get("xd") or real["xd"])
+        except Exception:  # noqa
+            return out
+        cv = DictCache(rv, lambda v: id(v), [])
+        for turn in ("miss", "hit"):
+            o = build.run_real(ctx, cv, rx, m)["out"]
+            if "raised" in o:
+                if m == "sync" and o["raised"] == "AssertionError" and has_async(case["v"], env):
+                    break
+                if "raised" in real[m]["out"]:
+                    break       # the validator itself raises here: reported above (or a listed finding), once
+                out.append(f"{m}: behind a cache wrapper ({turn}) the call raised {o['raised']}")
+                break
+            if "valid" not in o and "invalid" not in o:
+                out.append(f"{m}: behind a cache wrapper ({turn}) returned neither Valid nor Invalid")
+                break
     return out
 
 
@@ -691,13 +720,13 @@ def oracle_C05(case: dict, real: dict, model: dict) -> List[str]:
 # C17 fixed point
 
 
-def idem_tree(v: Any, env: List[dict], seen: Optional[set] = None) -> bool:
+def idem_tree(v: Any, env: List[dict], seen: Optional[set] = None, allow_takeover: bool = False) -> bool:
     """the tree is inside C17's quantifier: no user coercers / non-idempotent processors, unions
     with coercer- and processor-free variants, dict-building record targets, KeyNotRequired only in
     key position (free-standing markers are generated only there)"""
     seen = seen if seen is not None else set()
     if isinstance(v, list):
-        return all(idem_tree(x, env, seen) for x in v)
+        return all(idem_tree(x, env, seen, allow_takeover) for x in v)
     if not isinstance(v, dict):
         return True
     k = v.get("k")
@@ -705,13 +734,13 @@ def idem_tree(v: Any, env: List[dict], seen: Optional[set] = None) -> bool:
         if v["ref"] in seen:
             return True
         seen.add(v["ref"])
-        return idem_tree(env[v["ref"]], env, seen)
+        return idem_tree(env[v["ref"]], env, seen, allow_takeover)
     if isinstance(v.get("coerce"), dict):
         return False
     for p in v.get("pre") or []:
         if p["k"] == "user":
             return False
-    if k in ("union", "optional"):
+    if k in ("union", "optional") and not allow_takeover:
         vs = v["vs"] if k == "union" else [v["inner"]]
         if len(vs) > 1 or k == "optional":
             for cv in vs:
@@ -725,7 +754,7 @@ def idem_tree(v: Any, env: List[dict], seen: Optional[set] = None) -> bool:
             return False
     if k == "none" and v.get("coerce"):
         return False
-    return all(idem_tree(x, env, seen) for key, x in v.items() if key not in ("m", "v", "vs_", "keys", "defaults", "cls"))
+    return all(idem_tree(x, env, seen, allow_takeover) for key, x in v.items() if key not in ("m", "v", "vs_", "keys", "defaults", "cls"))
 
 
 def coerce_free(v: Any, env: List[dict], seen: set) -> bool:
@@ -748,8 +777,12 @@ def coerce_free(v: Any, env: List[dict], seen: set) -> bool:
 def oracle_C17(case: dict, real: dict, model: dict) -> List[str]:
     out: List[str] = []
     env = case.get("env", [])
-    if not idem_tree(case["v"], env):
+    if not idem_tree(case["v"], env, allow_takeover=True):
         return out
+    # a union / optional with coercing or preprocessing variants is inside the property's quantifier, and finding D25
+    # lives there: a failure under such a tree is reported only with the takeover established on the real code at a
+    # union the explanation can reach (through lists, tuples, maps, records); one it cannot reach is left undecided
+    takeover_only = not idem_tree(case["v"], env)
     if not defaults_accepted([case["v"]] + list(env), env):
         return out
     for m in MODES:
@@ -767,10 +800,98 @@ def oracle_C17(case: dict, real: dict, model: dict) -> List[str]:
             if cp:
                 out.append(f"{m}: the validator rejects its own payload: container predicate {cp} fails on the payload")
             else:
-                out.append(f"{m}: the validator rejects its own payload ({r2['invalid']['err']['e']})")
+                out.append(f"{m}: the validator rejects its own payload ({r2['invalid']['err']['e']})" + _d25(case, env, real, o, m))
         elif norm(strip_ids(r2["valid"])) != norm(strip_ids(w)):
-            out.append(f"{m}: re-validating the payload changed it")
+            out.append(f"{m}: re-validating the payload changed it" + _d25(case, env, real, o, m))
+    if takeover_only:
+        out = [f for f in out if "[explained-by:D25]" in f]
     return out
+
+
+def _d25(case: dict, env: List[dict], real: dict, o: dict, m: str) -> str:
+    why = union_takeover(case["v"], env, real[m].get("xd") or real["xd"], o["valid"], m)
+    return f" [explained-by:D25] ({why})" if why else ""
+
+
+def union_takeover(v: dict, env: List[dict], x: dict, w: dict, m: str, depth: int = 0) -> Optional[str]:
+    """finding D25, established on the real code: below `v` there is a union in which the payload produced by the
+    variant that accepted the input is accepted, on re-validation, by an *earlier* variant (which may then coerce or
+    preprocess it differently).  `x`: the input at this node, `w`: the payload this node returned."""
+    if depth > 10 or not isinstance(v, dict) or not isinstance(x, dict) or not isinstance(w, dict):
+        return None
+    k = v.get("k")
+    try:
+        if k == "lazy":
+            return union_takeover(env[v["ref"]], env, x, w, m, depth + 1)
+        if k in ("user", "knr"):
+            return union_takeover(v["inner"], env, x, w, m, depth + 1)
+        if k == "optional":
+            return None if x.get("t") == "none" else union_takeover(v["inner"], env, x, w, m, depth + 1)
+        if k == "maybe":
+            if x.get("t") == "just" and w.get("t") == "just":
+                return union_takeover(v["inner"], env, x["v"], w["v"], m, depth + 1)
+            return None
+        if k == "union":
+            first = None
+            for i, var in enumerate(v["vs"]):
+                if "valid" in run_alone(var, env, x, m)["out"]:
+                    first = i
+                    break
+            if first is None:
+                return None
+            for j in range(first):
+                if "valid" in run_alone(v["vs"][j], env, wire_fresh(w), m)["out"]:
+                    return f"union {v['vid']}: variant {first} produced the payload, variant {j} accepts it on re-validation"
+            return union_takeover(v["vs"][first], env, x, w, m, depth + 1)
+        if k in ("list", "set", "utuple"):
+            xs, ws = x.get("xs"), w.get("xs")
+            if isinstance(xs, list) and isinstance(ws, list) and len(xs) == len(ws):
+                for a, b in zip(xs, ws):
+                    r = union_takeover(v["item"], env, a, b, m, depth + 1)
+                    if r:
+                        return r
+            return None
+        if k == "ntuple":
+            xs, ws = x.get("xs"), w.get("xs")
+            if isinstance(xs, list) and isinstance(ws, list) and len(xs) == len(ws) == len(v["fields"]):
+                for f, a, b in zip(v["fields"], xs, ws):
+                    r = union_takeover(f, env, a, b, m, depth + 1)
+                    if r:
+                        return r
+            return None
+        if k == "map":
+            xk, wk = x.get("kvs"), w.get("kvs")
+            if isinstance(xk, list) and isinstance(wk, list) and len(xk) == len(wk):
+                for (ka, va), (kb, vb) in zip(xk, wk):
+                    r = union_takeover(v["key"], env, ka, kb, m, depth + 1) or union_takeover(v["value"], env, va, vb, m, depth + 1)
+                    if r:
+                        return r
+            return None
+        if k == "record" and x.get("t") == "dict":
+            given = {json.dumps(strip_ids(kk), sort_keys=True): vv for kk, vv in x["kvs"]}
+            if w.get("t") == "dict":
+                got = {json.dumps(strip_ids(kk), sort_keys=True): vv for kk, vv in w["kvs"]}
+            elif w.get("t") == "inst":
+                got = {json.dumps({"t": "str", "s": [ord(c) for c in n]}, sort_keys=True): vv for n, vv in zip(w["names"], w["vals"])}
+            elif w.get("t") in ("tuple", "list") and len(w["xs"]) == len(v["keys"]):
+                got = {json.dumps(strip_ids(kk), sort_keys=True): vv for kk, vv in zip(v["keys"], w["xs"])}
+            else:
+                return None
+            for kk, cv in zip(v["keys"], v["vals"]):
+                key = json.dumps(strip_ids(kk), sort_keys=True)
+                if key in given and key in got:
+                    b = got[key]
+                    if cv.get("k") == "knr" or (isinstance(b, dict) and b.get("t") == "just" and given[key].get("t") != "just"):
+                        if not (isinstance(b, dict) and b.get("t") == "just"):
+                            continue
+                        b = b["v"]
+                    r = union_takeover(cv, env, given[key], b, m, depth + 1)
+                    if r:
+                        return r
+            return None
+    except Exception:  # noqa
+        return None
+    return None
 
 
 def defaults_accepted(v: Any, env: List[dict]) -> bool:
@@ -1154,6 +1275,45 @@ def _ctx_wrappers(v: dict, x: dict, payload_hashable: bool) -> List[Tuple[str, d
     if payload_hashable:
         out.append(("set", {"k": "set", "vid": 9010, "item": v, "preds": None, "apreds": None, "coerce": None},
                     {"t": "set", "oid": 9110, "xs": [x]}, ("xs", 0)))
+        out.append(("map key", {"k": "map", "vid": 9012, "key": v, "value": {"k": "always", "vid": 1}, "preds": None,
+                                "apreds": None, "coerce": None}, {"t": "dict", "oid": 9112, "kvs": [[x, K]]}, ("kvs_key", 0)))
+    return out
+
+
+def _c18_context(m: str, name: str, wv: dict, wx: dict, path: Any, env: list, base: dict) -> List[str]:
+    from .genv import is_hashable_desc
+    out: List[str] = []
+    if name in ("set", "map key") and "valid" in base and not is_hashable_desc(base["valid"]):
+        return out
+    r = run_alone(wv, env, wx, m)["out"]
+    if "raised" in r:
+        return [f"{m}: in a one-element {name} context the call raised {r['raised']}"]
+    if ("valid" in base) != ("valid" in r):
+        return [f"{m}: verdict depends on the context: alone {'accepts' if 'valid' in base else 'rejects'}, inside a {name} {'accepts' if 'valid' in r else 'rejects'}"]
+    if "valid" in base:
+        inner = r["valid"]
+        if path is not None:
+            f, i = path
+            if f == "xs_just":
+                inner = inner["xs"][i]
+                if inner.get("t") != "just":
+                    out.append(f"{m}: a present optional key does not deliver Just(payload) inside a {name}")
+                    return out
+                inner = inner["v"]
+            else:
+                inner = inner["kvs"][i][0] if f == "kvs_key" else inner["kvs"][i][1] if f == "kvs" else (inner["v"] if f == "v" else inner[f][i])
+        if norm(inner) != norm(base["valid"]):
+            out.append(f"{m}: payload inside a {name} differs from the validator's own payload")
+    else:
+        inv = r["invalid"]
+        if name in ("union1",):
+            cand = inv["children"]
+        elif name == "user":
+            cand = [inv]
+        else:
+            cand = inv["children"]
+        if not any(norm(c) == norm(base["invalid"]) for c in cand):
+            out.append(f"{m}: the error inside a {name} is not the validator's own error at that position")
     return out
 
 
@@ -1173,41 +1333,12 @@ def oracle_C18(case: dict, real: dict, model: dict) -> List[str]:
             continue
         hashable_in = is_hashable_desc(x)
         wrappers = _ctx_wrappers(v, x, hashable_in)
-        # one context per case (rotating) keeps the cost linear; thorough tiers see all of them many times
-        name, wv, wx, path = wrappers[which % len(wrappers)]
-        if name == "set" and "valid" in base and not is_hashable_desc(base["valid"]):
-            continue
-        r = run_alone(wv, env, wx, m)["out"]
-        if "raised" in r:
-            out.append(f"{m}: in a one-element {name} context the call raised {r['raised']}")
-            continue
-        if ("valid" in base) != ("valid" in r):
-            out.append(f"{m}: verdict depends on the context: alone {'accepts' if 'valid' in base else 'rejects'}, inside a {name} {'accepts' if 'valid' in r else 'rejects'}")
-            continue
-        if "valid" in base:
-            inner = r["valid"]
-            if path is not None:
-                f, i = path
-                if f == "xs_just":
-                    inner = inner["xs"][i]
-                    if inner.get("t") != "just":
-                        out.append(f"{m}: a present optional key does not deliver Just(payload) inside a {name}")
-                        continue
-                    inner = inner["v"]
-                else:
-                    inner = inner["kvs"][i][1] if f == "kvs" else (inner["v"] if f == "v" else inner[f][i])
-            if norm(inner) != norm(base["valid"]):
-                out.append(f"{m}: payload inside a {name} differs from the validator's own payload")
-        else:
-            inv = r["invalid"]
-            if name in ("union1",):
-                cand = inv["children"]
-            elif name == "user":
-                cand = [inv]
-            else:
-                cand = inv["children"]
-            if not any(norm(c) == norm(base["invalid"]) for c in cand):
-                out.append(f"{m}: the error inside a {name} is not the validator's own error at that position")
+        # a leaf validator is tried in every context (cheap, and a fast path for "simple" children is the realistic
+        # way to break context-freedom); a composite one in three of them, rotating
+        leaf = v["k"] in ("scalar", "equals", "none", "always")
+        chosen = wrappers if leaf else [wrappers[(which + j) % len(wrappers)] for j in range(3)]
+        for name, wv, wx, path in chosen:
+            out += _c18_context(m, name, wv, wx, path, env, base)
         # optional: accepts exactly None plus what the inner validator accepts
         ov = {"k": "optional", "vid": 9011, "noneV": {"k": "none", "vid": 3, "coerce": None}, "inner": v}
         if which % 3 == 0:
